@@ -39,12 +39,13 @@ import (
 )
 
 var (
-	flagProp = flag.String("prop", "C03", "C03|C04 (selects the property checker)")
-	flagSeed = flag.Int64("seed", 1, "PRNG seed")
-	flagTier = flag.String("tier", "quick", "quick|thorough")
-	flagOut  = flag.String("out", ".", "output directory")
-	flagN    = flag.Int("n", 0, "number of histories per backend (0 = tier default)")
-	flagDbg  = flag.Bool("debug", false, "write the proxy's log to stderr")
+	flagProp  = flag.String("prop", "C03", "C03|C04 (selects the property checker)")
+	flagSeed  = flag.Int64("seed", 1, "PRNG seed")
+	flagTier  = flag.String("tier", "quick", "quick|thorough")
+	flagOut   = flag.String("out", ".", "output directory")
+	flagN     = flag.Int("n", 0, "number of histories per backend (0 = tier default)")
+	flagDbg   = flag.Bool("debug", false, "write the proxy's log to stderr")
+	flagSleep = flag.Bool("sleep", false, "also run the real-sleep batch (always on in thorough)")
 )
 
 // ---------- a CA the proxy never needs (no CONNECT in these histories) ----------
@@ -339,6 +340,9 @@ func playHistory(e *env, r *emit.Rand, path string, nsteps int, meta *emit.Meta)
 	pol := e2ePolicy(r)
 	pol0 := pol
 	e.setPolicy(pol)
+	// every history has its own resource, so its virtual clock can start at the real time again
+	// (a shift accumulated over thousands of histories would overflow time.Duration)
+	e.shift = 0
 	start := e.vnow()
 	last := start
 	items := []string{}
@@ -409,7 +413,87 @@ func playHistory(e *env, r *emit.Rand, path string, nsteps int, meta *emit.Meta)
 		meta.Count("expires_form_in_history", f)
 	}
 	term := fmt.Sprintf("HC %s %s %s", pol0.Coq(), freshlib.NanosZ(start), emit.List(items))
-	return term, map[string]any{"backend": e.backend, "path": path, "steps": readable}, st
+	return term, map[string]any{"backend": e.backend, "path": path, "policy": pol0.Readable(), "steps": readable}, st
+}
+
+// playSleepBatch validates the ageing hook: the same kind of history, but the clock really
+// advances (time.Sleep) and VerifAge is not used. The histories of the batch are interleaved
+// so that the whole batch costs two sleeps.
+func playSleepBatch(e *env, w *emit.Writer, meta *emit.Meta) {
+	pol := freshlib.Policy{Default: 4 * time.Second}
+	e.setPolicy(pol)
+	type variant struct {
+		cc   []string
+		exp  string // "" | form of an Expires 4 s ahead
+		age  int64  // -1 none
+		r304 bool
+	}
+	vars := []variant{
+		{[]string{"max-age=4"}, "", -1, true}, {[]string{"max-age=4"}, "", -1, false}, {nil, "imf", -1, true}, {nil, "rfc850", -1, false},
+		{nil, "", -1, true}, {[]string{"Max-Age=4, public"}, "", 2, true}, {[]string{"max-age=60"}, "", -1, true}, {[]string{"max-age=4", "no-store"}, "", -1, false},
+	}
+	type hist struct {
+		path  string
+		items []string
+		rd    []any
+		last  time.Time
+		start time.Time
+	}
+	hs := make([]*hist, len(vars))
+	for i := range vars {
+		hs[i] = &hist{path: fmt.Sprintf("/%s/sleep%d", e.backend, i)}
+	}
+	round := func(version int64) {
+		for i, v := range vars {
+			h := hs[i]
+			a := answer{Status: 200, Version: version, R304: v.r304}
+			a.HV.CC = v.cc
+			a.HV.Exp = freshlib.Expires{Kind: freshlib.ExpAbsent, Form: "absent"}
+			if v.exp != "" {
+				at := time.Now().Add(5 * time.Second).Truncate(time.Second)
+				a.HV.Exp = freshlib.Expires{Kind: freshlib.ExpAt, Line: freshlib.DateLine(at, v.exp), At: at, Form: v.exp}
+			}
+			if v.age >= 0 {
+				ag := v.age
+				a.Age = &ag
+			}
+			e.orig.set(h.path, a)
+			now := e.vnow()
+			if h.start.IsZero() {
+				h.start, h.last = now, now
+			}
+			o := e.request("GET", h.path)
+			h.items = append(h.items, "IAdvance "+emit.Z(int64(now.Sub(h.last))))
+			h.last = now
+			hv := a.HV
+			if hv.Exp.Kind == freshlib.ExpAt {
+				hv.Exp.At = hv.Exp.At.Add(e.shift)
+			}
+			age := "None"
+			if a.Age != nil {
+				age = "(Some " + emit.Z(*a.Age) + ")"
+			}
+			oa := fmt.Sprintf("(Build_oanswer 200 %s %s %s)", hv.Coq(), emit.Z(a.Version), age)
+			h.items = append(h.items, fmt.Sprintf("IRequest GET %s %s %s", oa, emit.Bool(a.R304), o.coq()))
+			rd := a.HV.Readable()
+			rd["request"] = "GET"
+			rd["real_sleep"] = true
+			rd["seen"] = map[string]any{"status": o.status, "version": o.version, "x_cache": o.xcache, "cache_status": o.cs, "age": o.age, "origin_log": o.origin}
+			h.rd = append(h.rd, rd)
+			meta.Count("x_cache_real_sleep", o.xcache)
+		}
+	}
+	round(1)
+	time.Sleep(1500 * time.Millisecond)
+	round(2)
+	time.Sleep(5000 * time.Millisecond)
+	round(3)
+	round(3)
+	for _, h := range hs {
+		w.Add(fmt.Sprintf("HC %s %s %s", pol.Coq(), freshlib.NanosZ(h.start), emit.List(h.items)))
+		meta.Count("backend", e.backend+"-real-sleep")
+		meta.Record(e.backend+h.path, true, map[string]any{"backend": e.backend, "path": h.path, "real_sleep": true, "steps": h.rd})
+	}
 }
 
 func main() {
@@ -457,6 +541,9 @@ func main() {
 			meta.Count("backend", b)
 			meta.Count("steps", strconv.Itoa(nsteps))
 			meta.Record(b+path, nontrivial || strings.Contains(term, "HsRevalidated"), rd)
+		}
+		if *flagTier == "thorough" || *flagSleep {
+			playSleepBatch(e, w, meta)
 		}
 		e.close()
 	}
